@@ -326,8 +326,9 @@ static void gen_program(uint64_t rseed, uint64_t idx, const char *tier, sbuf_t *
       if (i % 3 == 2 || i == np - 1) sb_printf(o, "prefix %d freeall\n", k);
     }
   }
-  genopt_t g = { thorough ? 1200 : 400 };
+  genopt_t g = { thorough ? 1200 : 400, 0 };
   if (rng_chance(&rg, 1, 3)) g.maxdim = 96;
+  if (rng_chance(&rg, 1, 3)) g.winprob = 6; /* operands (and supplied destinations) that are views into larger matrices, at odd and even word offsets */
   sbuf_t t = { 0 };
   gen_case(&rg, op, &g, &t, 0, 0);
   for (char *q = strtok(t.s, "\n"); q; q = strtok(NULL, "\n")) sb_printf(o, "probe %s\n", q);
